@@ -113,7 +113,12 @@ class Lane:
                    "%s: decoder consumed %d of %d bytes" % (cname, f.tell(), len(b)), w)
         if objgen.deep(back) != objgen.deep(val):
             self.v("roundtrip-changes-value:" + cname.split("/")[0], "%s: decode(encode(v)) != v field by field" % cname, w)
-        if back.serialize() != b:
+        try:
+            again = back.serialize()
+        except Exception as e:
+            again = None
+            self.v("decoded-value-cannot-be-encoded:" + cname.split("/")[0], "%s: decode(encode(v)) cannot be encoded again: %r" % (cname, e), w)
+        if again is not None and again != b:
             self.v("roundtrip-changes-encoding:" + cname.split("/")[0], "%s: encode(decode(b)) != b" % cname, w)
         # reference encoder (anchors the byte layout) and ids
         if cname == "Transaction":
